@@ -72,11 +72,14 @@ CLAIMED = {
              "telescoping cosine sum, trapezoid rule on uniform grids); g_to_S(S_to_g S) = S and S_to_g(g_to_S g) = g for every rho>0 and all "
              "data with the conventional value 1 at index 0 and at index N (Props/C01Sg: wrapper = conversion;core;conversion by rfl, "
              "conversion refinements, values independent of the uncertainties handed on internally); each direction separately returns "
-             "the discrete closed-form partner (sin(Q_k r_m) <-> delta_m/dr), which pins 2/pi to Q->r and the bare kernel to r->Q. 'To "
-             "discretisation accuracy' for the continuous closed-form family is not a theorem (no quadrature error bound): the oracle "
-             "compares both directions with the closed form A sqrt(pi) Q/(4 a^1.5) exp(-Q^2/4a) at 1e-9 of scale on grids where the "
-             "trapezoid rule has converged (with and without accompanying uncertainties).", ref="8 (C01)",
-             tech="Lean 4 theorems (DST orthogonality, Finset sums, conversion refinements) on translator output + closed-form numerical sweep (partial)"),
+             "the discrete closed-form partner (sin(Q_k r_m) <-> delta_m/dr), which pins 2/pi to Q->r and the bare kernel to r->Q. Props/C01Gauss "
+             "(Mathlib measure theory) proves that the closed-form family of the statement IS a sine-Fourier pair under the documented conventions: "
+             "int_0^inf A r exp(-a r^2) sin(Qr) dr = A sqrt(pi) Q/(4 a^1.5) exp(-Q^2/4a) and (2/pi) int_0^inf of that times sin(Qr) dQ = A r exp(-a r^2), "
+             "for every A, a>0, Q, r, and for finite sums of members - so the target of the numerical comparison is a theorem, not a formula typed twice. 'To "
+             "discretisation accuracy' itself is not a theorem (no quadrature error bound for the trapezoid sum on a finite grid): the oracle "
+             "compares both directions of the real code with the closed form at 1e-9 of scale on grids where the "
+             "trapezoid rule has converged (with and without accompanying uncertainties).", ref="8 (C01), 29",
+             tech="Lean 4 theorems (DST orthogonality, Finset sums, conversion refinements) on translator output + Lean 4/Mathlib theorem for the continuous closed-form pair + closed-form numerical sweep (partial)"),
  "C15": dict(text="Theorems on regenerated _low_x_correction and its call sites: the code adds codeTerm(lorch,Qmin,S(Qmin),Qmax,r) "
              "(refinement), which equals int_0^Qmin Q[S_lin(Q)-1] w(Q) sin(Qr) dQ for S_lin = S(Qmin) Q/Qmin, plain and Lorch-damped "
              "(FTC with explicit antiderivatives; plain: r != 0; Lorch: every r, the poles r = +-pi/Qmax included, after the fix: commit that "
@@ -113,8 +116,13 @@ CLAIMED = {
              "max(0,1-|x-g_k|/xdiv) (so exactly the points within one bin width count); each bin is numerator/weight with both as sums "
              "over contributing points: linear in y, constants preserved, between min and max of contributing y, permutation invariant; "
              "a point on node i gives weight 1 to node i, 0 to node i+1. Empty bins raise ZeroDivisionError in the code: theorems assume "
-             "non-zero accumulated weight.", ref="8 (C20), 5",
-             tech="Lean 4 theorems (floor arithmetic, fold = sums) on a hand-written model + correspondence + hat-weight oracle"),
+             "non-zero accumulated weight."
+             " SECOND TIE: Pre_Proc.rebin is also regenerated on every run by tools/translate_stog.py (range/append loop, accumulator lists, indexed +=, "
+             "in-place division loop) and proved equal to the hand model for xdiv>0 and equal lengths (Refine/Rebin.lean rebin_refines, by a per-bin invariant "
+             "that also shows every guarded index is in range); Props/C20Gen restates grid, bin values and permutation invariance for the generated code; the "
+             "generated code runs at Float as a twin of every correspondence request. When the translator refuses a construct the check falls back to hand "
+             "model + correspondence and says so in the evidence.", ref="8 (C20), 5, 26",
+             tech="refinement of code generated from pre_proc.py + Lean 4 theorems (floor arithmetic, fold = sums) on a hand-written model + correspondence + hat-weight oracle"),
  "C18": dict(text="Partial. Theorems on the hand model of _write_out_to_file (own digit functions; the model's file is compared byte for byte "
              "with the files of all 8 real writers): the text of every finite double parses back to exactly (sign, "
              "round-half-even(|v| 10^12)) and lies within 5e-13 of the stored value (exact rational arithmetic on the bit pattern); "
@@ -139,7 +147,7 @@ CLAIMED = {
              "with constant step and covers Rmax; flag form defaults. The model is tied to the real code by the correspondence "
              "(attributes, r grid bit for bit, files written by pystog_cli); file *contents* CLI vs library vs defaults-filled-in are "
              "compared byte for byte by the oracle over enumerated present/absent subsets."
-             " SECOND TIE (this property's part of stog.py is also *regenerated* on every run by tools/translate_stog.py and proved equal to the hand model; when the translator refuses a construct the check falls back to hand model + correspondence and says so in the evidence): Props/C19Gen: the workflow part of pystog_cli is regenerated from cli.py; chaining the step refinements, from a freshly ingested object it succeeds and writes exactly the files of Config.libSteps (S(Q), real-space function, [filter: 3 files], [Lorch], Keen F(Q), Keen G(r)) in that order, the optional steps governed by the instance's cutoff and Lorch flag. __kwargs2attr / parse_cli_args themselves remain hand-modelled.", ref="8 (C19), 5",
+             " SECOND TIE (this property's part of stog.py is also *regenerated* on every run by tools/translate_stog.py and proved equal to the hand model; when the translator refuses a construct the check falls back to hand model + correspondence and says so in the evidence): Props/C19Gen: the workflow part of pystog_cli is regenerated from cli.py; chaining the step refinements, from a freshly ingested object it succeeds and writes exactly the files of Config.libSteps (S(Q), real-space function, [filter: 3 files], [Lorch], Keen F(Q), Keen G(r)) in that order, the optional steps governed by the instance's cutoff and Lorch flag. __init__, __kwargs2attr (one step function per key), the validating setters and io.parse_cli_args are regenerated too: Refine/Config.construct_refines (StoG(**kwargs) fails exactly when the hand model does, with the same error kind, and otherwise yields the hand model's settings, r grid, stem name and post-merge options) and parse_cli_args_refines (= Config.parseFlags; Python truthiness drops a zero --Rdelta); the generated constructor runs at Float as a twin of every configuration request.", ref="8 (C19), 5",
              tech="generated CLI workflow (chained refinements) + Lean 4 theorems (case analysis over Option fields, floor/ceil arithmetic) on a hand-written model + end-to-end CLI correspondence"),
 }
 
